@@ -1,27 +1,174 @@
-"""Tool and thread jobs (Miri, ASan, valgrind, TSan, MT rounds) that complement the native
-single-threaded drivers. Filled per property; see DESIGN.md section 3.4."""
+"""Tool and thread jobs (native MT rounds, Miri, ASan/LSan, valgrind, TSan) that complement the
+native single-threaded drivers. See DESIGN.md section 3.4 for what each tool decides."""
+import os
+import re
 import subprocess
+
+VERIF = os.path.dirname(os.path.dirname(os.path.abspath(__file__)))
+HARNESS = os.path.join(VERIF, "harness")
+
+# which properties get which extra job families
+MT_PROPS = {"C01": 1, "C02": 2, "C03": 3, "C05": 5, "C06": 6, "C08": 8, "C11": 11}
+MIRI_MT_PROPS = {"C01", "C03"}
+MIRI_ST_PROPS = {"C02", "C03", "C04", "C05", "C06", "C07", "C08", "C11"}
+ASAN_PROPS = {"C03", "C06", "C07"}
+VALGRIND_PROPS = {"C03", "C06", "C18"}
+TSAN_PROPS = {"C01", "C03"}
+
+# subjects a tool job of a property is restricted to, so that a report can be attributed to it
+ST_KINDS = {
+    "C03": ["FuturesUnorderedBounded", "FuturesUnordered", "FuturesOrdered", "MergeBounded", "MergeUnbounded"],
+    "C07": ["join_all", "try_join_all"],
+    "C04": ["FuturesOrderedBounded", "FuturesOrdered", "buffered_ordered", "join_all"],
+    "C11": ["MergeBounded", "MergeUnbounded"],
+}
 
 
 def variants_needed(pid, tier):
-    return []
+    v = []
+    if pid in MIRI_MT_PROPS or pid in MIRI_ST_PROPS:
+        v.append("miri")
+    if pid in ASAN_PROPS:
+        v.append("asan")
+    if tier == "thorough" and pid in TSAN_PROPS:
+        v.append("tsan")
+    return v
 
 
 def jobs(pid, tier, seed, bins, Job, mix, miri_env):
-    return []
+    quick = tier == "quick"
+    n = int(pid[1:])
+    out = []
+    if pid in MT_PROPS:
+        reps = 3 if quick else 8
+        for i in range(reps):
+            variant = "release" if i % 2 else "debug"
+            fp = [0, 20, 60][i % 3] if not quick else [0, 30, 0][i % 3]
+            rounds = 2500 if quick else 120_000
+            argv = [bins[variant], "mt", "--prop", str(n), "--seed", str(mix(seed, pid, "mt", i)), "--rounds", str(rounds), "--failpoints", str(fp), "--budget-ms", str(25_000 if quick else 600_000)]
+            out.append(Job(f"mt/{variant}/fp{fp}/{i}", argv, timeout=200 if quick else 1500, tool="mt-native"))
+    if pid in MIRI_MT_PROPS:
+        reps = 12 if quick else 48
+        for i in range(reps):
+            s = mix(seed, pid, "miri-mt", i) % 1_000_000
+            flags = f"-Zmiri-seed={s} -Zmiri-preemption-rate={[0.05, 0.1, 0.2, 0.3][i % 4]} -Zmiri-compare-exchange-weak-failure-rate=0.2 -Zmiri-address-reuse-cross-thread-rate=0.3"
+            if not quick and i % 6 == 5:
+                flags += " -Zmiri-tree-borrows"
+            rounds = 8 if quick else 60
+            argv = ["cargo", "+nightly", "miri", "run", "--offline", "--", "mt", "--small", "--no-probes", "--prop", str(n), "--rounds", str(rounds), "--seed", str(s)]
+            out.append(Job(f"miri-mt/{i}", argv, env=miri_env(flags), timeout=600 if quick else 3000, tool="miri"))
+    if pid in MIRI_ST_PROPS:
+        reps = (6 if pid in MIRI_MT_PROPS else 12) if quick else 32
+        kinds = ST_KINDS.get(pid)
+        for i in range(reps):
+            s = mix(seed, pid, "miri-st", i) % 1_000_000
+            flags = f"-Zmiri-seed={s}"
+            if not quick and i % 6 == 5:
+                flags += " -Zmiri-tree-borrows"
+            hist = 14 if quick else 150
+            argv = ["cargo", "+nightly", "miri", "run", "--offline", "--", "run", "--prop", str(n), "--small", "--histories", str(hist), "--max-ops", "24", "--seed", str(s), "--budget-ms", str(60_000 if quick else 900_000)]
+            if kinds:
+                argv += ["--kind", kinds[i % len(kinds)]]
+            out.append(Job(f"miri-st/{i}", argv, env=miri_env(flags), timeout=600 if quick else 3000, tool="miri"))
+    if pid in ASAN_PROPS:
+        env = dict(os.environ, ASAN_OPTIONS="detect_leaks=1:halt_on_error=1:abort_on_error=0:exitcode=99:detect_stack_use_after_return=0", LSAN_OPTIONS="exitcode=98")
+        reps = 3 if quick else 8
+        kinds = ST_KINDS.get(pid)
+        for i in range(reps):
+            if pid == "C07":
+                continue
+            argv = [bins["asan"], "mt", "--no-probes", "--prop", str(n), "--seed", str(mix(seed, pid, "asan-mt", i)), "--rounds", str(1200 if quick else 40_000), "--budget-ms", str(20_000 if quick else 500_000)]
+            out.append(Job(f"asan-mt/{i}", argv, env=env, timeout=300 if quick else 1500, tool="asan"))
+        for i in range(reps):
+            argv = [bins["asan"], "run", "--prop", str(n), "--seed", str(mix(seed, pid, "asan-st", i)), "--histories", str(8000 if quick else 200_000), "--budget-ms", str(25_000 if quick else 500_000), "--no-poison"]
+            if kinds:
+                argv += ["--kind", kinds[i % len(kinds)]]
+            out.append(Job(f"asan-st/{i}", argv, env=env, timeout=300 if quick else 1500, tool="asan"))
+    if not quick and pid in VALGRIND_PROPS:
+        for i in range(2):
+            argv = ["valgrind", "--error-exitcode=97", "--leak-check=full", "--errors-for-leak-kinds=definite", "--show-leak-kinds=definite", "-q", bins["release"], "run", "--prop", str(n), "--seed", str(mix(seed, pid, "vg", i)), "--histories", "2500", "--no-poison", "--budget-ms", "400000"]
+            out.append(Job(f"valgrind-st/{i}", argv, timeout=1500, tool="valgrind"))
+        argv = ["valgrind", "--error-exitcode=97", "--leak-check=full", "--errors-for-leak-kinds=definite", "--show-leak-kinds=definite", "-q", bins["release"], "mt", "--no-probes", "--prop", str(n), "--seed", str(mix(seed, pid, "vg-mt")), "--rounds", "300", "--budget-ms", "400000"]
+        out.append(Job("valgrind-mt/0", argv, timeout=1500, tool="valgrind"))
+    if not quick and pid in TSAN_PROPS:
+        env = dict(os.environ, TSAN_OPTIONS=f"suppressions={os.path.join(VERIF, 'tsan.supp')}:halt_on_error=0:exitcode=66:report_signal_unsafe=0")
+        for i in range(4):
+            argv = [bins["tsan"], "mt", "--no-probes", "--prop", str(n), "--seed", str(mix(seed, pid, "tsan", i)), "--rounds", "20000", "--budget-ms", "240000"]
+            out.append(Job(f"tsan-mt/{i}", argv, env=env, timeout=900, tool="tsan"))
+    return out
+
+
+# ----------------------------------------------------------------------------- report parsing
+
+def classify(text, armed):
+    """Attribute a tool report to a property by its content; fall back to the armed property."""
+    t = text.lower()
+    if "uninitialized" in t or "uninit" in t:
+        return "C07"
+    if "leak" in t:
+        return "C03" if ("wakerlist" in t or "waker_list" in t) else "C06"
+    if any(k in t for k in ("data race", "dangling", "use-after-free", "freed", "out-of-bounds", "double-free", "attempting double", "deallocat")):
+        return "C03" if armed in ("C01", "C03", "C02", "C05") else armed
+    return armed
 
 
 def post(job, pid):
-    """Turn tool output into violations / notes on the job object."""
-    return
+    job.tool_violations = []
+    err = job.err or ""
+    if job.tool == "miri":
+        m = re.search(r"error: (Undefined Behavior|memory leaked|unsupported operation|the evaluated program (leaked|deadlocked|aborted))[^\n]*", err)
+        if m:
+            if "unsupported operation" in m.group(0):
+                job.note = "miri: " + m.group(0)[:200]
+                job.no_summary_ok = True
+                return
+            start = max(0, m.start() - 200)
+            excerpt = err[start:m.start() + 2500]
+            prop = classify(excerpt, pid)
+            job.tool_violations.append({"property": prop, "rule": "miri:" + re.sub(r"alloc\d+|0x[0-9a-f]+", "_", m.group(0))[:160], "subject": job.label.split("/")[0], "detail": excerpt, "tool": "miri", "label": job.label, "argv": job.argv, "miriflags": (job.env or {}).get("MIRIFLAGS")})
+        elif job.summary is None and job.rc not in (0, "timeout"):
+            job.note = f"miri exited {job.rc} without report: " + err[-300:]
+    elif job.tool == "asan":
+        m = re.search(r"ERROR: (AddressSanitizer|LeakSanitizer)[^\n]*", err)
+        if m:
+            excerpt = err[m.start():m.start() + 3000]
+            prop = classify(excerpt, pid)
+            first_frame = re.search(r"#\d+ 0x[0-9a-f]+ in (futures_buffered[^\s]*)", excerpt)
+            job.tool_violations.append({"property": prop, "rule": "asan:" + re.sub(r"0x[0-9a-f]+", "_", m.group(0))[:120] + (" @" + first_frame.group(1) if first_frame else ""), "subject": job.label.split("/")[0], "detail": excerpt, "tool": "asan", "label": job.label, "argv": job.argv})
+    elif job.tool == "valgrind":
+        job.no_summary_ok = False
+        if job.rc == 97 or "definitely lost" in err or "Invalid " in err:
+            m = re.search(r"(Invalid (read|write|free)[^\n]*|[\d,]+ bytes in [\d,]+ blocks are definitely lost[^\n]*)", err)
+            if m:
+                excerpt = err[m.start():m.start() + 2500]
+                job.tool_violations.append({"property": classify(excerpt, pid), "rule": "valgrind:" + re.sub(r"[\d,]+ bytes in [\d,]+ blocks", "N bytes", m.group(0))[:100], "subject": job.label.split("/")[0], "detail": excerpt, "tool": "valgrind", "label": job.label, "argv": job.argv})
+    elif job.tool == "tsan":
+        reports = re.findall(r"WARNING: ThreadSanitizer: ([^\n]*)", err)
+        if reports:
+            m = re.search(r"WARNING: ThreadSanitizer:", err)
+            excerpt = err[m.start():m.start() + 3000]
+            job.tool_violations.append({"property": "C03" if pid == "C03" else pid, "rule": "tsan:" + reports[0][:100], "subject": "mt", "detail": excerpt, "tool": "tsan", "label": job.label, "argv": job.argv})
 
 
 def details(jobs):
-    return {}
+    d = {}
+    for j in jobs:
+        if j.tool == "native":
+            continue
+        t = d.setdefault(j.tool, {"jobs": [], "executions": 0, "observed": {}})
+        s = j.summary or {}
+        t["executions"] += s.get("histories", 0)
+        for k, v in s.get("observed", {}).items():
+            t["observed"][k] = t["observed"].get(k, 0) + v
+        t["jobs"].append({"label": j.label, "rc": j.rc, "wall_s": round(j.wall, 1), "executions": s.get("histories", 0), "flags": (j.env or {}).get("MIRIFLAGS", "") if j.tool == "miri" else ""})
+    for t in d.values():
+        t["jobs"] = t["jobs"][:6] + ([{"more": len(t["jobs"]) - 6}] if len(t["jobs"]) > 6 else [])
+    return d
 
 
 def distinct_extra(jobs):
-    return 0
+    # threaded rounds report distinct interleaving signatures themselves
+    return sum((j.summary or {}).get("distinct_nontrivial", 0) for j in jobs if j.tool != "native" and (j.summary or {}).get("mode") == "mt")
 
 
 def floor(pid, tier):
